@@ -1138,6 +1138,32 @@ ares_status_t ares_get_server_addr(const ares_server_t *server, ares_buf_t *buf)
   return ARES_SUCCESS;
 }
 
+/* The server list is kept in order of preference (fewest consecutive failures
+ * first), which changes as servers fail and recover.  This walks it in the
+ * order the servers were configured in, which is what the configuration
+ * getters have to report: pass NULL for the first server. */
+const ares_server_t *
+  ares_server_next_configured(const ares_channel_t *channel,
+                              const ares_server_t  *prev)
+{
+  ares_slist_node_t   *node;
+  const ares_server_t *best = NULL;
+
+  for (node = ares_slist_node_first(channel->servers); node != NULL;
+       node = ares_slist_node_next(node)) {
+    const ares_server_t *server = ares_slist_node_val(node);
+
+    if (prev != NULL && server->idx <= prev->idx) {
+      continue;
+    }
+    if (best == NULL || server->idx < best->idx) {
+      best = server;
+    }
+  }
+
+  return best;
+}
+
 int ares_get_servers(const ares_channel_t   *channel,
                      struct ares_addr_node **servers)
 {
@@ -1145,7 +1171,7 @@ int ares_get_servers(const ares_channel_t   *channel,
   struct ares_addr_node *srvr_last = NULL;
   struct ares_addr_node *srvr_curr;
   ares_status_t          status = ARES_SUCCESS;
-  ares_slist_node_t     *node;
+  const ares_server_t   *server;
 
   if (channel == NULL) {
     return ARES_ENODATA;
@@ -1153,10 +1179,8 @@ int ares_get_servers(const ares_channel_t   *channel,
 
   ares_channel_lock(channel);
 
-  for (node = ares_slist_node_first(channel->servers); node != NULL;
-       node = ares_slist_node_next(node)) {
-    const ares_server_t *server = ares_slist_node_val(node);
-
+  for (server = ares_server_next_configured(channel, NULL); server != NULL;
+       server = ares_server_next_configured(channel, server)) {
     /* Allocate storage for this server node appending it to the list */
     srvr_curr = ares_malloc_data(ARES_DATATYPE_ADDR_NODE);
     if (!srvr_curr) {
@@ -1200,7 +1224,7 @@ int ares_get_servers_ports(const ares_channel_t        *channel,
   struct ares_addr_port_node *srvr_last = NULL;
   struct ares_addr_port_node *srvr_curr;
   ares_status_t               status = ARES_SUCCESS;
-  ares_slist_node_t          *node;
+  const ares_server_t        *server;
 
   if (channel == NULL) {
     return ARES_ENODATA;
@@ -1208,10 +1232,8 @@ int ares_get_servers_ports(const ares_channel_t        *channel,
 
   ares_channel_lock(channel);
 
-  for (node = ares_slist_node_first(channel->servers); node != NULL;
-       node = ares_slist_node_next(node)) {
-    const ares_server_t *server = ares_slist_node_val(node);
-
+  for (server = ares_server_next_configured(channel, NULL); server != NULL;
+       server = ares_server_next_configured(channel, server)) {
     /* Allocate storage for this server node appending it to the list */
     srvr_curr = ares_malloc_data(ARES_DATATYPE_ADDR_PORT_NODE);
     if (!srvr_curr) {
@@ -1345,9 +1367,9 @@ int ares_set_servers_ports_csv(ares_channel_t *channel, const char *_csv)
 
 char *ares_get_servers_csv(const ares_channel_t *channel)
 {
-  ares_buf_t        *buf = NULL;
-  char              *out = NULL;
-  ares_slist_node_t *node;
+  ares_buf_t          *buf = NULL;
+  char                *out = NULL;
+  const ares_server_t *server;
 
   ares_channel_lock(channel);
 
@@ -1356,10 +1378,9 @@ char *ares_get_servers_csv(const ares_channel_t *channel)
     goto done; /* LCOV_EXCL_LINE: OutOfMemory */
   }
 
-  for (node = ares_slist_node_first(channel->servers); node != NULL;
-       node = ares_slist_node_next(node)) {
-    ares_status_t        status;
-    const ares_server_t *server = ares_slist_node_val(node);
+  for (server = ares_server_next_configured(channel, NULL); server != NULL;
+       server = ares_server_next_configured(channel, server)) {
+    ares_status_t status;
 
     if (ares_buf_len(buf)) {
       status = ares_buf_append_byte(buf, ',');
